@@ -41,11 +41,12 @@ struct kbq { uint64_t _queue_size; size_t _k; marked_idx _head; marked_idx _tail
 static uint64_t xv_random(void) { return nondet_u64(); }
 
 /* ---- pointer_queue_traits: ghost ownership ---- */
-unsigned g_released, g_stored, g_deleted_tracked, g_deleted_other; raw_value_type g_track;
+unsigned g_released, g_stored; raw_value_type g_track;
 static raw_value_type TR_get_raw(value_type v) { return v; }
 static void TR_release(value_type v) { g_released++; }
 #define TR_store(target, raw) do { (target) = (raw); g_stored++; } while (0)
-static void TR_delete_value(raw_value_type raw) { if (raw != 0) { if (raw == g_track) g_deleted_tracked++; else g_deleted_other++; } }
+_Bool g_del_once, g_del_twice;   /* delete_value(nullptr) is a no-op; flags instead of counters: cheaper for the solver */
+static void TR_delete_value(raw_value_type raw) { if (raw != 0 && raw == g_track) { if (g_del_once) g_del_twice = 1; g_del_once = 1; } }
 
 /* ---- constructor pieces ---- */
 #define ALLOC_MAX (((uint64_t)1) << 59)      /* operator new[] of more than 2^63 bytes fails */
@@ -56,7 +57,9 @@ static uint64_t xv_new_entries(uint64_t n) { if (n > ALLOC_MAX) { xv_threw = XV_
 #define XV_INIT__k(self, v) ((self)->_k = (v))
 #define XV_INIT__head(self, v) ((self)->_head = XV_MI_DEFAULT)      /* marked_idx() = default; uint64_t _val = <XV_MI_DEFAULT, read from the header> */
 #define XV_INIT__tail(self, v) ((self)->_tail = XV_MI_DEFAULT)
-#define XV_INIT__queue(self, v) do { if (v) g_queue_inits++; } while (0)
+static void xv_init_queue(uint64_t tok) { if (tok) g_queue_inits++; }
+#define XV_INIT__queue(self, ...) xv_init_queue(__VA_ARGS__ + 0)      /* _queue() (empty unique_ptr) or _queue(new entry[n]()) / _queue.reset(new entry[n]()) */
+#define XENIUM_VERIF_POINT(id) ((void)0)                               /* replay hook of instrumented trees: no effect */
 
 /* ---- do_pop is instantiated with the two lambdas of try_pop ---- */
 static _Bool kbq_pop_success(value_type* result_p, marked_value* v_p);
@@ -139,7 +142,7 @@ static void mon_cas(void* addr, uint64_t e, uint64_t d, _Bool ok, int o) {
 }
 static void mon_reset(struct kbq* q) {
   mon_q = q; mon_probes_on = 0; mon_log_on = 0; mon_nprobe = 0; mon_adv_ok = 1; mon_plain_store = 0; mon_slot_cas_ok_n = 0; mon_slot_cas_n = 0; mon_tail_loads = 0; mon_head_loads = 0;
-  mon_tail_cas_n = 0; mon_head_cas_n = 0; g_released = 0; g_stored = 0; g_deleted_tracked = 0; g_deleted_other = 0; xv_threw = 0; xv_clock = 0;
+  mon_tail_cas_n = 0; mon_head_cas_n = 0; g_released = 0; g_stored = 0; g_del_once = 0; g_del_twice = 0; xv_threw = 0; xv_clock = 0;
 }
 
 /* =====================================================================================================
@@ -210,7 +213,7 @@ static void havoc_shape(struct kbq* q, uint64_t k, uint64_t S) {
   uint64_t htag = nondet_u64(), ttag = nondet_u64(); XV_ASSUME(htag <= TAG_MASK && ttag <= TAG_MASK);
   q->_head = (hs * k) | (htag << XV_BITS); q->_tail = (ts * k) | (ttag << XV_BITS);
   for (unsigned i = 0; i < NMAX; i++) { q->_queue[i].value = nondet_u64(); g_age[i] = nondet_u64(); }
-  g_next_age = nondet_u64();
+  g_next_age = nondet_u64(); XV_ASSUME(g_next_age < (((uint64_t)1) << 63));      /* fewer than 2^63 pushes in the life of a queue (ghost counter) */
 }
 /* segment number of a head/tail position; S if the position is not a segment boundary inside the array */
 static uint64_t seg_of_pos(uint64_t pos, uint64_t k, uint64_t S) { for (uint64_t s = 0; s < S; s++) if (pos == s * k) return s; return S; }
@@ -255,7 +258,7 @@ static void find_index_case(uint64_t k, uint64_t S, _Bool empty) {
   if (r) {
     XV_OBL("kbq.find_index.result", idx < size && ring_off(in_start, idx, size) < k && old == q._queue[idx].value && (MV_get(old) == 0) == empty);
     XV_CANARY("find_index.found");
-    if (n == k && k > 1) XV_CANARY("find_index.found_last");
+    if (n == k) XV_CANARY("find_index.found_last");
   } else {
     uint64_t j = nondet_u64(); XV_ASSUME(j < k);
     uint64_t sl = in_start + j; if (sl >= size) sl -= size;
@@ -350,7 +353,7 @@ static void pop_case(uint64_t k, uint64_t S) {
       if (g_age[i] < g_age[c]) older++;
     }
     XV_OBL("kbq.pop.k_oldest", older < k);
-    if (older > 0) XV_CANARY("pop.not_the_oldest");
+    if (older > 0 || k == 1) XV_CANARY("pop.not_the_oldest");      /* k == 1: strict FIFO, nothing older can exist */
     if (q._tail != o._tail) XV_CANARY("pop.advanced_tail");
     if (q._head != o._head) XV_CANARY("pop.advanced_head");
   }
@@ -372,13 +375,12 @@ void h_init(void) { FOR_SHAPES(init_case(k_, S_)); }
 static void dtor_case(uint64_t k, uint64_t S) {
   struct kbq q; havoc_shape(&q, k, S); mon_reset(&q);
   uint64_t size = k * S; g_track = nondet_uptr(); XV_ASSUME(g_track != 0);
-  unsigned tracked = 0;
-  for (unsigned i = 0; i < NMAX; i++) if (i < size && MV_get(q._queue[i].value) == g_track) tracked++;
-  XV_ASSUME(tracked <= 1);
+  /* g_track is any object: either it is stored in exactly one slot j (stored values are distinct objects), or in none */
+  _Bool stored = nondet_bool(); uint64_t j = nondet_u64(); XV_ASSUME(j < size);
+  for (unsigned i = 0; i < NMAX; i++) if (i < size) XV_ASSUME((MV_get(q._queue[i].value) == g_track) == (stored && i == j));
   kbq_dtor(&q);
-  /* g_track is any object: one that is stored (in exactly one slot) is destroyed exactly once, one that is not stored is not destroyed */
-  XV_OBL("kbq.dtor.each_once", g_deleted_tracked == tracked);
-  if (tracked) XV_CANARY("dtor.tracked"); else XV_CANARY("dtor.not_stored");
+  XV_OBL("kbq.dtor.each_once", g_del_once == stored && !g_del_twice);
+  if (stored) XV_CANARY("dtor.tracked"); else XV_CANARY("dtor.not_stored");
 }
 void h_dtor(void) { FOR_SHAPES(dtor_case(k_, S_)); }
 
